@@ -760,6 +760,33 @@ class Evaluator(object):
             raise NotConst('statement %s' % type(st).__name__)
 
 
+def callables_of(mod, others=()):
+    """name -> FunctionDef for what a function of `mod` can call by a bare name: the module's own functions and the functions it imports (under their
+    local alias) from the modules in `others`."""
+    import os as _os
+    out = dict(getattr(mod, 'funcs', {}))
+    for alias, (module, name) in getattr(mod, 'imports', {}).items():
+        if name is None or alias in out:
+            continue
+        for o in others:
+            if module and module.split('.')[-1] == _os.path.basename(o.relpath)[:-3] and name in o.funcs:
+                out[alias] = o.funcs[name]
+    return out
+
+
+def bind_simple_locals(ev, stmts, scope, stop=None, skip=()):
+    """Before a fragment of a function is evaluated on its own: bind the locals the statements in front of it define by plain `name = expression`
+    assignments, whenever the expression is evaluable in `scope` (aliases such as `mname = self.m.name`); everything else is left alone."""
+    for st in stmts:
+        if st is stop:
+            break
+        if isinstance(st, ast.Assign) and len(st.targets) == 1 and isinstance(st.targets[0], ast.Name) and st.targets[0].id not in skip and st.targets[0].id not in scope:
+            try:
+                scope[st.targets[0].id] = ev.ev(st.value, scope if scope is not ev.env else None)
+            except NotConst:
+                pass
+
+
 def _free_names(fnode):
     params = set(a.arg for a in fnode.args.args)
     stores, loads = set(), set()
